@@ -122,7 +122,15 @@ impl Ctx {
         self.put(&json!({"ev": "Matrix", "eq": eq, "cmp": cmp, "pcmp": pcmp, "heq": heq}));
     }
     /// values of expression `i`: what the value is (hand-written oracle) and its real SCALE encoding
-    pub fn values<T: Val + Encode>(&mut self, i: usize) {
+    pub fn values<T: Val + Encode + TypeInfo + 'static>(&mut self, i: usize) {
+        // the same type registered ALONE in a fresh registry: what a decoder gets when nothing of the type was
+        // met before (the shared registry of the program has usually seen its leaves already)
+        if self.nvals > 0 {
+            let mut r = Registry::new();
+            let id = r.register_type(&meta_type::<T>()).id;
+            let p: PortableRegistry = r.into();
+            self.put(&json!({"ev": "Solo", "i": i, "id": id, "types": proj::registry(Mode::Plain, &p)}));
+        }
         for _ in 0..self.nvals {
             let v = T::gen(&mut self.rng, 0);
             let ev = json!({"ev": "Value", "i": i, "tree": v.tree(), "bytes": v.encode()});
